@@ -59,6 +59,14 @@ Proof. exact scriptint_overflow. Qed.
 Theorem C16_scriptint_min : forall (p : profile) (n : Z), in_i64 n = true ->
   ((exists w, build_scriptint p n = Panic w) <-> (p = Debug /\ n = i64_min)).
 Proof. exact build_scriptint_panic_iff. Qed.
+(* what `expected` shows for push_int n: the dedicated opcode for -1 / 1..16, otherwise a push that read_scriptint reads
+   back to n (so C16_readback says: integers pushed as script numbers read back to the same value) *)
+Theorem C16_int_reads_back : forall (p : profile) (n : Z), (- 2 ^ 31 < n < 2 ^ 31)%Z ->
+  match int_item p n with
+  | IPush e => read_scriptint e = SOk n /\ special_small n = false
+  | IOp c => (n = -1 /\ c = x4f)%Z \/ ((1 <= n <= 16)%Z /\ b2n c = Z.to_N (0x50 + n))
+  | _ => False end.
+Proof. exact int_item_reads_back. Qed.
 (* read_scriptint is the sign-magnitude reading of at most four bytes *)
 Theorem C16_read_scriptint : forall v : bytes,
   read_scriptint v = if Nat.ltb 4 (length v) then SErr NumericOverflow else SOk (sm_val v).
@@ -189,6 +197,7 @@ Print Assumptions C16_min_iter.
 Print Assumptions C16_scriptint.
 Print Assumptions C16_scriptint_overflow.
 Print Assumptions C16_scriptint_min.
+Print Assumptions C16_int_reads_back.
 Print Assumptions C16_read_scriptint.
 Print Assumptions C16_templates.
 Print Assumptions C16_v1plus_as_coded.
